@@ -17,6 +17,22 @@ ASSUME_STORE = [
     'generator stays inside the working domain of unclaimed properties (DESIGN.md A2/A3): unique task names, no namespace that prefixes a task name, safe string alphabet',
 ]
 
+REAL_VS_STUB = {
+    'storesim': {'real': ['taskchain (from $TCSIM_REPO/src; for C12 also the frozen 1.4.0 copy)', 'orjson', 'yaml', 'numpy', 'pandas', 'networkx', 'logging', 'tmpfs file system', 'process death (os._exit of a forked interpreter)'],
+                 'stub': ['tqdm bars', 'datetime in taskchain.task (simulated clock)', 'run bodies of the generated tasks'], 'excluded': ['FigureData', 'H5Data dataset I/O', 'Chain.draw']},
+    'cachesim': {'real': ['taskchain.cache', 'filelock', 'orjson', 'numpy', 'pandas', 'tmpfs file system'], 'stub': ['computers / cached method bodies (generated)'], 'excluded': []},
+    'schedsim': {'real': ['taskchain.cache', 'filelock (flock)', 'orjson', 'numpy', 'pandas', 'threads', 'tmpfs file system'],
+                 'stub': ['time.sleep (lock poll -> yield)', 'open() for files written under the cache directory (chunking proxy over the real file)', 'thread scheduling (baton)'], 'excluded': []},
+    'pmapsim': {'real': ['taskchain.utils.threading / utils.iter', 'concurrent.futures.ThreadPoolExecutor', 'asyncio event loop'],
+                'stub': ['tqdm', 'f (gate-controlled)', 'loop.call_soon_threadsafe counted (pass-through)'], 'excluded': []},
+}
+SIM_TIME = {
+    'storesim': lambda st: f"{st.get('sim_clock_s', 0)} simulated seconds on the injected clock (every datetime.now() of taskchain.task advances it by 1 s)",
+    'cachesim': lambda st: 'no clock in this engine (no timer or deadline in the code under test); history length is the measure: see simulated_ops',
+    'schedsim': lambda st: f"{st.get('steps', 0)} scheduling steps (the global event sequence number is the only clock; lock polls cost one step)",
+    'pmapsim': lambda st: 'no clock: progress is measured in gate releases (one per element and run)',
+}
+
 # property -> configuration
 PROPS = {}
 
@@ -396,8 +412,8 @@ def generic_runner(pid, tier, seed, a, cfg):
         'runs_per_hour': int(len(ran) / max(wall, 1e-6) * 3600), 'seeds': f'VERIF_SEED={seed}, run indices 0..{len(all_recs) - 1}',
         'simulated_ops': sum(r.get('nops', 0) for r in ran), 'fault_kinds_fired': fired_tot, 'reach_probes': stat_tot,
         'aborted_by_other_property': aborted, 'harness_errors': len(harness), 'skipped_for_deadline': len(skipped),
-        'real_vs_stub': {'real': ['taskchain (from $TCSIM_REPO/src)', 'filelock', 'orjson', 'yaml', 'numpy', 'pandas', 'networkx', 'tmpfs'],
-                         'stub': ['tqdm bars', 'datetime in taskchain.task (simulated clock)'], 'excluded': ['FigureData', 'H5Data dataset I/O', 'Chain.draw']},
+        'real_vs_stub': REAL_VS_STUB[cfg['engine']],
+        'simulated_time': SIM_TIME[cfg['engine']](stat_tot),
         'exhaustive': False,
     }
     coverage.update(cfg.get('extra_coverage', lambda recs: {})(ran))
